@@ -660,6 +660,44 @@ func genC18SysScenario(rng *Rng, style int, long bool) (string, bool) {
 	}
 	draining := make([]bool, n)
 	anyDrain := false
+	if style == 2 {
+		// pipelined: rounds in which every mover appears in random order and is skipped at random, so
+		// that many transactions overlap in every stage, with back-pressure and reordering; drains of
+		// one or all nodes start in the middle of the traffic
+		rounds := steps / 3
+		for r := 0; r < rounds; r++ {
+			movers := []string{}
+			for a := 0; a < n; a++ {
+				movers = append(movers, fmt.Sprintf("t %d", a), fmt.Sprintf("sq %d", a), fmt.Sprintf("lt %d", a),
+					fmt.Sprintf("sr %d", a), fmt.Sprintf("g %d", a), fmt.Sprintf("la %d %d %s", a, rng.Intn(3), data()))
+			}
+			movers = append(movers, fmt.Sprintf("dq %d", rng.Intn(3)), fmt.Sprintf("dr %d", rng.Intn(3)),
+				fmt.Sprintf("dq %d", rng.Intn(2)), fmt.Sprintf("dr %d", rng.Intn(2)))
+			for _, k := range rng.Perm(len(movers)) {
+				if rng.Chance(30) {
+					continue
+				}
+				if rng.Chance(35) {
+					issue()
+				}
+				ops = append(ops, movers[k])
+			}
+			if !anyDrain && r == rounds/2 && rng.Chance(70) {
+				if rng.Chance(60) {
+					for a := 0; a < n; a++ {
+						add("cd %d %d", a, rng.Range(1, 3))
+						draining[a] = true
+					}
+				} else {
+					a := rng.Intn(n)
+					add("cd %d %d", a, rng.Range(1, 3))
+					draining[a] = true
+				}
+				anyDrain = true
+			}
+		}
+		steps = 0
+	}
 	for i := 0; i < steps; i++ {
 		x := rng.Intn(100)
 		switch {
@@ -705,7 +743,7 @@ func genC18SysScenario(rng *Rng, style int, long bool) (string, bool) {
 		}
 	}
 	// fair closing rounds: every mover gets its turn, so everything must complete
-	rounds := 3*steps/capN + 16
+	rounds := 3*(steps+len(ops))/capN/2 + 16
 	if rounds > 300 {
 		rounds = 300
 	}
@@ -765,13 +803,13 @@ func runC18Deep(r *Run, rng *Rng, replay string) {
 		nr, nl = 6000, 200
 	}
 	for i := 0; i < nr; i++ {
-		style := rng.Pick(0, 1, 1)
+		style := rng.Pick(0, 1, 2, 2)
 		l, closed := genC18SysScenario(rng, style, false)
 		r.Count(fmt.Sprintf("sys.style%d", style))
 		runC18SysScenario(r, l, closed)
 	}
 	for i := 0; i < nl; i++ {
-		l, closed := genC18SysScenario(rng, rng.Pick(0, 1), true)
+		l, closed := genC18SysScenario(rng, rng.Pick(0, 1, 2, 2), true)
 		r.Count("sys.long")
 		runC18SysScenario(r, l, closed)
 	}
